@@ -18,9 +18,11 @@ def exact_natives():
     return _EXACT_NATIVES
 
 
-def ast_cfg(headers, macrodefs, topgates, openers, maxnodes, maxdepth, invariants=('MeaningDefined', 'EraseAgrees')):
-    s = ('SPECIFICATION Spec\nCONSTANTS\n Headers <- %s\n MacroDefs <- %s\n TopGates <- %s\n Openers <- %s\n'
-         ' MaxNodes = %d\n MaxDepth = %d\nINVARIANT Emit\n' % (headers, macrodefs, topgates, openers, maxnodes, maxdepth))
+def ast_cfg(headers, macrodefs, topgates, openers, maxnodes, maxdepth, invariants=('MeaningDefined', 'EraseAgrees'),
+            outer=None):
+    s = ('SPECIFICATION Spec\nCONSTANTS\n Headers <- %s\n MacroDefs <- %s\n TopGates <- %s\n OuterGates <- %s\n Openers <- %s\n'
+         ' MaxNodes = %d\n MaxDepth = %d\nINVARIANT Emit\n' % (headers, macrodefs, topgates, outer or topgates, openers,
+                                                                  maxnodes, maxdepth))
     for inv in invariants:
         s += 'INVARIANT %s\n' % inv
     return s
@@ -101,8 +103,9 @@ def run_program(job):
     text = job.get('text') or render.render_prog(prog, macros_last=job.get('macros_last', False))
     cases = []
     pout, circ = outcome(lambda: parse_prog(prog, text))
-    cases.append({'id': job['id'] + '/parse', 'site': 'parse', 'inp': compress(prog), 'ovr': [], 'out': pout,
-                  'text': text, 'prep': 'prepare_all', 'meas': 'measure_all'})
+    if not job.get('text'):      # a witness given as text has no model program to compare the parse with
+        cases.append({'id': job['id'] + '/parse', 'site': 'parse', 'inp': compress(prog), 'ovr': [], 'out': pout,
+                      'text': text, 'prep': 'prepare_all', 'meas': 'measure_all'})
     if circ is None:
         return cases
     inp = pout['prog']
@@ -154,9 +157,12 @@ def run_property(prop, tier, configs, sites_fn, owned, nontrivial, rule, module=
                 if p['macros'] and not any(("'v': '%s'" % nm) in repr(p['body']) for nm in names):
                     jobs.append({'id': '%s/%d/ml' % (name, n), 'prog': p, 'sites': sites_fn(p, rng), 'macros_last': True})
     for f in rep.findings:
-        if 'witness' in f and 'prog' in f['witness']:
-            jobs.append({'id': 'witness/' + f['id'], 'prog': f['witness']['prog'],
-                         'sites': [tuple(x) for x in f['witness']['sites']]})
+        if 'witness' in f and 'text' in f['witness'] and f['site'] != 'parse':
+            w = f['witness']
+            wp = dict(EMPTY_PROG, natives=exact_natives() if w.get('natives') else [])
+            jobs.append({'id': 'witness/' + f['id'], 'prog': wp, 'text': w['text'],
+                         'sites': [(f['site'], [{'v': k, 'val': project.num(v)} for k, v in w.get('ovr', [])])]
+                         if f['site'] != 'parse' else []})
     if extra_jobs:
         jobs += extra_jobs(rng)
     rep.phase('tlc_enumeration')
